@@ -50,7 +50,8 @@ HASHSEEDS = ["0", "1", "4242", "random", "random"]
 CHILD = os.path.join(os.path.dirname(os.path.abspath(__file__)), "_c13_child.py")
 
 _NAMES = ["default", "a", "b", "arrivals", "service", "", " ", "\t", "\x00", "0", "流", "séjour", "Ω",
-          "\U0001f600", "x" * 1000, "é" * 300, "default ", "Default", "a\nb", "stream-1", "stream-2"]
+          "\U0001f600", "x" * 1000, "é" * 300, "default ", "Default", "a\nb", "stream-1", "stream-2",
+          "\ud800", "run-\udcff.dat"]     # lone surrogates (e.g. os.fsdecode of a non-UTF-8 file name) are valid str
 _ORIG = [0, 1, -1, 10, 2 ** 63, -2 ** 63, 2 ** 64 + 1, 101]
 _BIG_R = [10 ** 6, 2 ** 40, 2 ** 64]
 
